@@ -162,6 +162,30 @@ def module_const(f, path):
                 return mk("agg", ("adt", "TwoFloat", 0, "TwoFloat"), (mk("const", "f64", w[0]), mk("const", "f64", w[1])))
     return None
 
+def check_delegation_subset(rep, f, names, rule="R16s"):
+    """the num_traits Float / FloatCore / Signed entry points named in `names` return exactly their
+    inherent counterpart (shared with C10's R16; used by the properties that own those functions)"""
+    n = 0
+    for b in f.live:
+        if not b.trait or not b.trait.startswith("num_traits") or b.self_ty != TF:
+            continue
+        tr = b.trait.split("::")[-1]
+        if tr not in ("Float", "FloatCore", "Signed") or b.name not in names:
+            continue
+        inh = "TwoFloat::" + RENAME.get(b.name, b.name)
+        if f.get(inh) is None:
+            continue
+        inst = "%s::%s" % (tr, b.name)
+        try:
+            t = H.tree_of(f, b, "op", inline_private=False)
+        except vg.Unsupported as u:
+            rep.fail(rule, inst, "unsupported:" + inst, "cannot evaluate %s: %s" % (inst, u), where=H.where(b)); continue
+        exp = mk("call", inh, *[P(i) for i in range(b.mir["arg_count"])])
+        n += 1
+        rep.check(t[0] == "leaf" and t[1] is exp, rule, inst, "delegation:" + inst, "%s does not return exactly %s: got %s" % (inst, vg.show(exp)[:100], vg.show(t)[:200]),
+                  where=H.where(b), detail=exp, nontrivial=False)
+    return n
+
 def check_delegation(rep, f):
     zero = vg.f64c(0.0); one = vg.f64c(1.0)
     tfagg = lambda h, l: mk("agg", ("adt", "TwoFloat", 0, "TwoFloat"), (h, l))
